@@ -245,8 +245,8 @@ func (sw *sigWorld) outer(st *Stack, in *tar.Header) *tar.Header {
 func init() {
 	Register(&Check{
 		ID: "C08", Level: "fault_enumeration", Tech: "deterministic simulation: at-rest corruption of the simulated drive (single-byte alterations enumerated over header bytes, sampled over content) and structured forgeries, then rebuild + restore in a fresh instance",
-		Rule:      "tapes written by small generated histories under {minisign,pgp} x {none,age,pgp} x compression subset; alterations: every header/PAX byte at a stride (thorough: every byte) x masks {0x01,0x80,0xFF}, sampled content bytes; forgeries: embedded header edited with kept / removed / garbage / re-encoded / non-signature-packet signature, signatures swapped between records, record signed with a second key, unsigned plain tar member appended and spliced, records duplicated; oracle: every header the indexer accepts (onHeader after verification) is field-for-field one the writer signed, every restore fails or returns the content signed under that header; an evaluation = one altered tape; non-trivial = the alteration changed a header or content byte of a record; distinct by (config, alteration kind, record, offset)",
-		QuickRuns: 64, QuickSecs: 80, ThoroughRuns: 600, ThoroughSecs: 1700,
+		Rule:      "tapes written by small generated histories under {minisign,pgp} x {none,age,pgp} x compression subset; alterations: every header/PAX byte at a stride (thorough: every byte) x masks {0x01,0x80,0xFF}, sampled content bytes; forgeries: embedded header edited with kept / removed / garbage / re-encoded / non-signature-packet signature, signatures swapped between records, record signed with a second key, unsigned plain tar member appended and spliced, records duplicated, fields of the unsigned OUTER tar header edited with the checksum recomputed (size 0 / half / +512, typeflag); oracle: every header the indexer accepts (onHeader after verification) is field-for-field one the writer signed, every restore fails or returns the content signed under that header; an evaluation = one altered tape; non-trivial = the alteration changed a header or content byte of a record; distinct by (config, alteration kind, record, offset)",
+		QuickRuns: 120, QuickSecs: 80, ThoroughRuns: 600, ThoroughSecs: 1700,
 		Assumptions: []string{"replay/reordering/dropping of validly signed records is not forbidden by the property: counted, not judged", "the attacker knows the encryption recipient (public key) but not the signing identity"},
 		Gen: func(r *rand.Rand, tier string, relax Relax) *Case {
 			c := &Case{P: map[string]int64{"enumerate": 1}, S: map[string]string{}}
@@ -321,6 +321,14 @@ func evalC08(t *testing.T, c *Case, st *Stats, relax Relax) *Violation {
 				}
 			}
 			alts = append(alts, alt{"append-unsigned", [3]int64{}}, alt{"splice-unsigned", [3]int64{1, 0, 0}})
+			// the outer tar header is an unsigned wrapper: its fields edited with the tar
+			// checksum recomputed (a single flipped byte never gets past the checksum)
+			for ri, r := range sw.recs {
+				if r.Size > 0 {
+					alts = append(alts, alt{"outer-size", [3]int64{int64(ri), 0, 0}}, alt{"outer-size", [3]int64{int64(ri), r.Size / 2, 0}}, alt{"outer-size", [3]int64{int64(ri), r.Size + 512, 0}})
+				}
+				alts = append(alts, alt{"outer-typeflag", [3]int64{int64(ri), '5', 0}}, alt{"outer-typeflag", [3]int64{int64(ri), '2', 0}})
+			}
 		}
 		for _, a := range alts {
 			tape, changed := alterTape(x, sw, a.kind, a.arg)
@@ -380,6 +388,26 @@ func alterTape(x *SeqCtx, sw *sigWorld, kind string, arg [3]int64) ([]byte, bool
 	ri := int(arg[0])
 	if ri >= len(sw.recs) {
 		return nil, false
+	}
+	if kind == "outer-size" || kind == "outer-typeflag" {
+		r := sw.recs[ri]
+		if r.DataOff < 512 || r.DataOff > int64(len(sw.tape)) {
+			return nil, false
+		}
+		t := append([]byte(nil), sw.tape...)
+		blk := t[r.DataOff-512 : r.DataOff] // the ustar header block that precedes the content
+		if kind == "outer-size" {
+			copy(blk[124:136], fmt.Sprintf("%011o\x00", arg[1]))
+		} else {
+			blk[156] = byte(arg[1])
+		}
+		copy(blk[148:156], "        ")
+		sum := 0
+		for _, b := range blk {
+			sum += int(b)
+		}
+		copy(blk[148:156], fmt.Sprintf("%06o\x00 ", sum))
+		return t, !bytes.Equal(t, sw.tape)
 	}
 	changed := false
 	out := rewriteTape(sw, func(i int, h *tar.Header, data []byte) (*tar.Header, []byte, bool) {
